@@ -58,6 +58,17 @@ CLAIMED = {
   text="Every monitor call is reached only through the nil-error edge of the persisting call (which returns after the persistence wait, C06) and not in dry-run; every successful write path publishes; argument roles: the values given to each monitor method are the ones in the persisted log payload / read from the store, and ledgerMonitor maps each parameter to the payload field of the same role. Broker delivery not decided.",
   design_ref="DESIGN.md §3 C16",
   technique="path state machine over SSA + SSA provenance of call arguments (role table) (static analysis)"),
+ "C18": dict(
+  category="other",
+  text="Loop structure of ProcessBulk decided over all paths through one iteration, hence for every sequence of elements/actions/outcomes and both values of continueOnFailure: exactly one result append per iteration (unknown actions and undecodable elements included), every return hands out the result slice and the failure flag, after a failure the loop continues only on the true edge of continueOnFailure, plain range over the parameter with no concurrency, the failure literal always sets the flag, and bulkHandler writes 400 before the body on every path where the flag may be true.",
+  design_ref="DESIGN.md §3 C18",
+  technique="per-iteration path state machine over SSA with inlined literals (static analysis)"),
+ "C19": dict(
+  category="proof",
+  text="Every obligation is discharged statically for all routes, methods, versions and bodies: the gate passes only GET/HEAD/OPTIONS to the wrapped handler and nobody rewrites Request.Method; the gate is installed before any route on every path where readOnly may be true and the versioned routers exist only behind it; the extracted route table (all chi registration calls of the repository) shows that no safe-method, method-agnostic or middleware registration can reach a write sink through resolved calls, created/referenced function values and implementations of repository interfaces; floors ensure Post/Delete routes do reach every write (non-vacuity). Modulo chi/net-http routing semantics (trusted).",
+  design_ref="DESIGN.md §3 C19",
+  note="Trusted base: chi dispatches a Get/Head/Options route for that method only and applies Use-middlewares to everything registered afterwards including mounted routers; net/http; go/types + go/ssa; no reflection on the analysed paths. Ledger creation is not one of the four writes of the statement.",
+  technique="route-table extraction + reachability over resolved call structure + edge-fact gate analysis (static analysis)"),
 }
 
 NOT_APPLICABLE = {
